@@ -341,11 +341,12 @@ func (s Seq) Bits() []uint8 {
 			put(1300, mark)
 			put(1300+s.A, mark)
 		}
-	case "maurersparse": // all-zero 7-bit blocks except all-one blocks at block numbers A, A+33263 and B
-		for _, blk := range []int{s.A, s.A + 33263, s.B} {
-			if blk > 0 && (blk+1)*7 <= n {
+	case "maurersparse": // all-zero 7-bit blocks except three patterns (1, 2, 3) that occur for the first time at the 1-based block numbers A, A+33263 and B
+		for k, blk := range []int{s.A, s.A + 33263, s.B} {
+			if blk > 0 && blk*7 <= n {
+				v := k + 1
 				for j := 0; j < 7; j++ {
-					out[blk*7+j] = 1
+					out[(blk-1)*7+j] = uint8(v >> uint(6-j) & 1)
 				}
 			}
 		}
